@@ -1,13 +1,214 @@
-"""C27 -- Redirect following resolves targets correctly and confines credentials: bounded stand-in (contracts/parts/C27_bounded.py)."""
-from contracts._parts import bounded, EXPLORATION_NOTE
+"""C27 -- Redirect following resolves targets correctly and confines credentials.
 
-CONTRACTS = []
+Deductive: RedirectAgent._handleRedirect and _handleResponse (both agents) are loop free.  With URI resolution and URI
+parsing as uninterpreted functions (so for *every* Location value and every URI) _handleRedirect is proved to: refuse once
+the redirect count has reached the limit and when there is no Location (ResponseFailed, nothing requested); otherwise
+issue exactly one request, to resolve(URI of the request that received the redirect, Location) -- the original URI only
+for the first hop --, with the caller's headers untouched when scheme, host and port of the target equal those of the
+original URI and otherwise with every sensitive header removed and every other header kept; and to continue the chain
+with the count increased by one and the new request URI.  _handleResponse is checked exhaustively over status codes and
+methods for both agents: 307/308 (and 301/302 for the strict agent) keep the method and are followed only for GET / HEAD,
+303 (and 301/302 for the browser-like agent) switch to GET, everything else is returned.
+Bounded (contracts/parts/C27_bounded.py): the real urljoin / URI parser over grammars of Locations and chains.
+"""
+import z3
+
+from pyvc.api import *
+from pyvc import core
+from contracts._parts import bounded
+from twisted.web import client, error
+from twisted.web.client import ResponseFailed
+from twisted.web.http_headers import Headers
+
+SEQ = core.IntSeq
+RESOLVE = z3.Function("c27_resolve", SEQ, SEQ, SEQ)
+SCHEME = z3.Function("c27_scheme", SEQ, SEQ)
+HOST = z3.Function("c27_host", SEQ, SEQ)
+PORT = z3.Function("c27_port", SEQ, z3.IntSort())
+SENSITIVE = (b"Authorization", b"Cookie", b"Proxy-Authorization")
+
+
+def t(x):
+    return core.seq_term(x, "bytes")
+
+
+def urljoin_model(I, base, loc):
+    return core.SSeq(RESOLVE(t(base), t(loc)), "bytes")
+
+
+def uri_model(I, raw, *a, **kw):
+    c = ctx()
+    return c.ghost["$contract"].make(client.URI, scheme=core.SSeq(SCHEME(t(raw)), "bytes"), host=core.SSeq(HOST(t(raw)), "bytes"),
+                                     port=core.mk_num(PORT(t(raw))))
+
+
+def raw_headers(I, hdrs, name, default=None):
+    g = ctx().ghost
+    return [g["loc"]] if g["has_location"] else default
+
+
+def agent_request(I, agent, *a, **kw):
+    c = ctx()
+    c.emit("agent.request", agent, a, kw)
+    return c.ghost["deferred"]
+
+
+def add_callback(I, d, *a, **kw):
+    ctx().emit("deferred.addCallback", d, a, kw)
+    return d
+
+
+CALLS = {"agent.request": agent_request, "deferred.addCallback": add_callback, "_urljoin": urljoin_model, "URI.fromBytes": uri_model, "fromBytes": uri_model,
+         "response_headers.getRawHeaders": raw_headers,
+         "Failure": lambda I, *a, **kw: __import__("twisted.python.failure", fromlist=["Failure"]).Failure(a[0]) if a else None}
+
+
+def same_origin(a, b):
+    return band(veq(core.SSeq(SCHEME(t(a)), "bytes"), core.SSeq(SCHEME(t(b)), "bytes")),
+                veq(core.SSeq(HOST(t(a)), "bytes"), core.SSeq(HOST(t(b)), "bytes")),
+                core.mk_bool(PORT(t(a)) == PORT(t(b))))
+
+
+class HandleRedirect(Contract):
+    prop = "C27"
+    module = "twisted.web.client"
+    function = "RedirectAgent._handleRedirect"
+    differential = False
+    calls = CALLS
+    inputs = dict(count=Int(lo=0, small=[0, 1, 2]), limit=Int(lo=0, small=[1, 2]), has_location=ForkBool(),
+                  loc=Bytes(alphabet=b"/a", small_len=1), uri=Bytes(alphabet=b"u", small_len=1),
+                  later_hop=ForkBool(), req_uri=Bytes(alphabet=b"r", small_len=1), with_headers=ForkBool())
+    trusted = ["URI resolution (urljoin) and URI.fromBytes as uninterpreted functions of their arguments",
+               "the inner agent, the response and the Deferred chain as call-outs"]
+
+    def setup(self, i):
+        agent = self.make(client.RedirectAgent, _agent=self.opaque("agent"), _redirectLimit=i.limit,
+                          _sensitiveHeaderNames=set(SENSITIVE))
+        response = self.opaque("response", code=302, headers=self.opaque("response_headers"))
+        headers = Headers({b"Authorization": [b"secret"], b"Cookie": [b"c=1"], b"X-Keep": [b"v"]}) if i.with_headers else None
+        args = [response, b"GET", i.uri, headers, i.count] + ([i.req_uri] if i.later_hop else [])
+        return dict(self=agent, args=args, ghost=dict(loc=i.loc, has_location=i.has_location, headers=headers,
+                                                       deferred=self.opaque("deferred")))
+
+    def bounded_inputs(self, tier):
+        return iter(())
+
+    raises = {ResponseFailed: lambda S: bor(S.i.count >= S.i.limit, bnot(S.i.has_location))}
+
+    def _parts(S):
+        reqs = [e for e in S.trace if e.name == "agent.request"]
+        base = S.i.req_uri if S.i.later_hop else S.i.uri
+        want = core.SSeq(RESOLVE(t(base), t(S.i.loc)), "bytes")
+        return reqs, want
+
+    def _target(S):
+        reqs, want = HandleRedirect._parts(S)
+        if S.exc is not None:
+            return len(reqs) == 0
+        return band(len(reqs) == 1, True if len(reqs) != 1 else band(reqs[0].args[0] == b"GET", veq(reqs[0].args[1], want)))
+
+    def _credentials(S):
+        reqs, want = HandleRedirect._parts(S)
+        if S.exc is not None or len(reqs) != 1:
+            return None
+        sent, original = reqs[0].args[2], S.ghost["headers"]
+        if original is None:
+            return sent is None
+        if same_origin(S.i.uri, want):
+            return sent is original
+        if sent is None:
+            return False
+        # the filtered copy is built inside the interpreter (an object record) or natively (a real Headers)
+        raw = sent._fields["_rawHeaders"].keys() if isinstance(sent, core.SObj) else [k for k, _ in sent.getAllRawHeaders()]
+        names = {k.lower() for k in raw}
+        return not (names & {n.lower() for n in SENSITIVE}) and b"x-keep" in names
+
+    def _continuation(S):
+        reqs, want = HandleRedirect._parts(S)
+        if S.exc is not None:
+            return None
+        # the chain continues with count + 1 and the URI just requested as the next base
+        cont = [e for e in S.trace if e.name == "deferred.addCallback" and len(e.args) >= 6]
+        if len(cont) != 1:
+            return False
+        a = cont[0].args
+        return band(a[1] == b"GET", veq(a[2], S.i.uri), a[4] == S.i.count + 1, veq(a[5], want))
+
+    ensures = dict(one_request_to_the_resolved_target=_target, credentials_confined_to_the_original_origin=_credentials,
+                   chain_continues_from_the_new_request_uri=_continuation)
+    canaries = [("location = self._resolveLocation(requestURI, locationHeaders[0])", "location = self._resolveLocation(uri, locationHeaders[0])",
+                 "one_request_to_the_resolved_target"),
+                ("if not sameOrigin:", "if False:", "credentials_confined_to_the_original_origin"),
+                ("if redirectCount >= self._redirectLimit:", "if redirectCount > self._redirectLimit:", "ResponseFailed-exactly-when")]
+
+
+def handle_redirect_summary(I, agent, response, method, uri, headers, count, request_uri=None):
+    ctx().emit("handleRedirect", agent, (method, uri, headers, count, request_uri))
+    return "followed"
+
+
+class HandleResponse(Contract):
+    """status code x method table of both agents (finite, complete)"""
+    prop = "C27"
+    module = "twisted.web.client"
+    function = "RedirectAgent._handleResponse"
+    differential = False
+    summaries = {"RedirectAgent._handleRedirect": handle_redirect_summary}
+    calls = {"Failure": CALLS["Failure"]}
+    inputs = dict(browser=ForkBool(), code=OneOf(200, 301, 302, 303, 304, 307, 308, 404), method=OneOf(b"GET", b"HEAD", b"POST", b"PUT"))
+
+    def setup(self, i):
+        cls = client.BrowserLikeRedirectAgent if i.browser else client.RedirectAgent
+        agent = self.make(cls, _agent=self.opaque("agent"), _redirectLimit=20, _sensitiveHeaderNames=set(SENSITIVE))
+        response = self.opaque("response", code=i.code)
+        return dict(self=agent, args=[response, i.method, b"http://a/", None, 0, b"http://a/x"], ghost=dict(response=response))
+
+    def bounded_inputs(self, tier):
+        return iter(())
+
+    def _rule(i):
+        """what the agents document: (action, method used)"""
+        see_other = (303,) if not i.browser else (301, 302, 303)
+        keep = (301, 302, 307, 308) if not i.browser else (307, 308)
+        if i.code in see_other:
+            return "follow", b"GET"
+        if i.code in keep:
+            return ("follow", i.method) if i.method in (b"GET", b"HEAD") else ("refuse", None)
+        return "return", None
+
+    raises = {ResponseFailed: lambda S: HandleResponse._rule(S.i)[0] == "refuse"}
+
+    def _table(S):
+        action, method = HandleResponse._rule(S.i)
+        hr = [e for e in S.trace if e.name == "handleRedirect"]
+        if action == "refuse":
+            return len(hr) == 0
+        if action == "return":
+            return band(len(hr) == 0, S.result is S.ghost["response"])
+        return band(len(hr) == 1, hr[0].args[0] == method, hr[0].args[4] == b"http://a/x", S.result == "followed")
+
+    ensures = dict(method_rule_per_status_code=_table)
+    canaries = [("return self._handleRedirect(\n                response, b\"GET\", uri, headers, redirectCount, requestURI\n            )",
+                 "return self._handleRedirect(response, b\"GET\", uri, headers, redirectCount)", "method_rule_per_status_code")]
+
+
+CONTRACTS = [HandleRedirect, HandleResponse]
 BOUNDED = bounded("C27")
 _SCOPE = ("real RedirectAgent / BrowserLikeRedirectAgent over a fake inner agent: one-hop resolution over a grammar of Location values (RFC 3986 5.4 shapes x schemes x authorities x queries x fragments) on 8 base URIs, chains of length 0..3 (thorough 4) over 12 Locations plus random chains up to 8, every status sequence up to length 4 x 5 methods x 5 limits, credential headers (all spellings, configured names) over chains across 13 origins; oracle: an RFC 3986 5.2 resolver written from the RFC, RFC 6454 origins, the agents' documented method rules")
-NOTES = dict(explanation=_SCOPE, not_covered=["deductive contracts on the anchored functions (not built)"])
+NOTES = dict(explanation="_handleRedirect / _handleResponse proved over uninterpreted URI resolution and parsing; real resolution and chains bounded: " + _SCOPE,
+             not_covered=["urljoin / URI.fromBytes themselves (library; the known findings live there): bounded tier only",
+                          "header-name spellings and configured sensitive names (concrete header set here; bounded tier covers spellings)"])
 MANIFEST = dict(
-    category="exploration",
-    text="Bounded stand-in only, on the real code: " + _SCOPE + ".",
-    note=EXPLORATION_NOTE,
-    technique="bounded exhaustive evaluation of an executable contract on the real code (stand-in; not proved)",
+    category="proof",
+    text="RedirectAgent._handleRedirect is proved, for every Location, URI and redirect count (URI resolution and parsing "
+         "uninterpreted), to raise ResponseFailed exactly when the count has reached the limit or no Location is given and to "
+         "request nothing then; otherwise to issue exactly one request to resolve(URI of the request that received the "
+         "redirect, Location), with the caller's headers untouched for a same-origin target and with Authorization / Cookie / "
+         "Proxy-Authorization removed and other headers kept for any other origin, and to continue with count + 1 and the new "
+         "request URI.  _handleResponse's status x method table is checked completely for both agents (307/308 keep the "
+         "method and need GET / HEAD, 303 -- and 301/302 for the browser-like agent -- switch to GET, other codes are "
+         "returned).  Real URI resolution, header spellings and whole chains are exercised in the bounded tier only: " + _SCOPE + ".",
+    note="Trusted: pyvc, SMT solvers, urljoin and URI.fromBytes uninterpreted, inner agent / response / Deferred as call-outs. "
+         "Everything else: bounded, never counted as proved.",
+    technique="contract-based deductive verification (symbolic execution with uninterpreted URI functions and call-out traces) + bounded exhaustive chains",
 )
